@@ -128,6 +128,7 @@ func Validate(v interface{}) *ValidateRecorder {
 	vr.recordJSONSchema(result)
 
 	val := reflect.ValueOf(v)
+	vr.recordNilEntries(&val, "")
 	traverseGo(&val, nil, vr.record)
 
 	return vr
